@@ -185,3 +185,40 @@ def bare_transport(paramiko, server_mode=False, **kw):
     t.server_mode = server_mode
     t.packetizer = RecordingPacketizer()
     return t
+
+
+# ---------------------------------------------------------------------------------------------- C05 tables
+def lean_name(s):
+    """an algorithm name as a Lean `List UInt8` literal"""
+    return "[" + ", ".join(str(b) for b in s.encode("utf-8")) + "]"
+
+
+def lean_name_list(names, indent="  "):
+    if not names:
+        return "[]"
+    return "[\n" + ",\n".join("%s%s /- %s -/" % (indent, lean_name(n), n.replace("-/", "- /")) for n in names) + "]"
+
+
+def gen_c05(Transport):
+    """lean/PV/Generated/C05.lean: key sets of the *_info tables and the class-level preference tuples."""
+    T = Transport
+    parts = [
+        "/- GENERATED from paramiko/transport.py by pv/lib_kdf.py (gen_c05) — do not edit. -/\n"
+        "import PV.Model.Negotiate\n"
+        "namespace PV.Generated.C05\n"
+        "open PV.Negotiate\n"
+    ]
+    for nm, d in (("kexInfoKeys", T._kex_info), ("keyInfoKeys", T._key_info), ("cipherInfoKeys", T._cipher_info),
+                  ("macInfoKeys", T._mac_info), ("compressionInfoKeys", T._compression_info)):
+        parts.append("def %s : List Name := %s\n" % (nm, lean_name_list(list(d.keys()))))
+    parts.append("def info : Info :=\n  { kex := kexInfoKeys, keys := keyInfoKeys, ciphers := cipherInfoKeys, "
+                 "macs := macInfoKeys,\n    compression := compressionInfoKeys }\n")
+    for nm, tup in (("preferredKex", T._preferred_kex), ("preferredGssKex", T._preferred_gsskex),
+                    ("preferredKeys", T._preferred_keys), ("preferredCiphers", T._preferred_ciphers),
+                    ("preferredMacs", T._preferred_macs), ("preferredCompression", T._preferred_compression)):
+        parts.append("/-- `Transport._%s` -/\ndef %s : List Name := %s\n" % (
+            {"preferredKex": "preferred_kex", "preferredGssKex": "preferred_gsskex", "preferredKeys": "preferred_keys",
+             "preferredCiphers": "preferred_ciphers", "preferredMacs": "preferred_macs",
+             "preferredCompression": "preferred_compression"}[nm], nm, lean_name_list(list(tup))))
+    parts.append("end PV.Generated.C05\n")
+    return "\n".join(parts)
